@@ -8,13 +8,18 @@
    between them is exactly the tokens the slice stands for, and a deletion removes exactly the range.
    [DT] is the document's token sequence, [IT] the tokens a slice stands for, both up to Python's True == 1
    on attribute values (TokenBasics.tnorm); [leaves] keeps the text and leaf tokens.
-   What the planner (the fitter; not modelled) contributes — it never raises on the bundled schemas, the
-   step's range starts at the requested start, the fitted slice's text is a subsequence of the given
-   slice's text — is evaluated per case by Corr.C11 on the steps the implementation emits. *)
+   The planner itself — transform/replace.py: replace_step, fits_trivially and the Fitter — is modelled
+   function for function in Model.Fitter and compared with the implementation on every run (the very step it
+   plans, or None, or the error class: Corr.Ops.QReplaceStep).  Theorems about it: the planned step starts at
+   the requested position (a replace-around step keeps [to, end of textblock) as its gap), so everything
+   before `from` survives the planned edit token for token.  What is still evaluated per case by Corr.C11 on
+   the implementation's output: the fitter never raises on the bundled schemas, and the fitted slice's text
+   is an in-order subsequence of the given slice's text. *)
 From Coq Require Import List Arith.
 From PM Require Import Model.Data Model.Mark Model.Tree Model.Step Spec.Tokens
   Proofs.ReplaceValid Proofs.SliceSides Proofs.TokenBasics Proofs.ReplaceTokens Proofs.SliceShape Proofs.TokenLaws
-  Proofs.StepAlgebra Proofs.AroundTokens Proofs.AroundLaws.
+  Proofs.StepAlgebra Proofs.AroundTokens Proofs.AroundLaws Proofs.FitterProofs.
+From PM Require Import Model.Fitter.
 Import ListNotations.
 
 Theorem C11_result_valid : forall s from to sl structure doc d',
@@ -62,3 +67,19 @@ Theorem C11_around_step_splice : forall s from to gf gt sl ins structure doc d',
             skipn ins (IT s sl) ++ skipn to (DT s doc).
 Proof. exact replace_around_splice. Qed.
 Print Assumptions C11_around_step_splice.
+
+Theorem C11_planned_step_starts_where_asked : forall s doc from to sl st,
+  replace_step s doc from to sl = Ok (Some st) ->
+  (exists t' sl', st = SReplace from t' sl' false) \/
+  (exists mi e sl' ins, st = SReplaceAround from mi to e sl' ins false).
+Proof. exact replace_step_shape. Qed.
+Print Assumptions C11_planned_step_starts_where_asked.
+
+Theorem C11_planned_edit_keeps_everything_before : forall s doc from to sl st d',
+  check s doc = true -> replace_step s doc from to sl = Ok (Some st) -> apply s st doc = ROk d' ->
+  (forall f t sl' b, st = SReplace f t sl' b -> Shape s (sl_content sl') (sl_open_start sl') (sl_open_end sl')) ->
+  (forall f t gf gt sl' ins b, st = SReplaceAround f t gf gt sl' ins b ->
+     Shape s (sl_content sl') (sl_open_start sl') (sl_open_end sl') /\ gf <= gt /\ ins <= length (IT s sl')) ->
+  firstn from (DT s d') = firstn from (DT s doc).
+Proof. exact planned_step_keeps_before. Qed.
+Print Assumptions C11_planned_edit_keeps_everything_before.
